@@ -10,12 +10,12 @@ namespace XmppModel.StartTLS
 theorem negotiateName_fst (cap : Option Name) (d : Nat) : (negotiateName cap d).1 = cap := by
   cases cap <;> rfl
 
-def SN (cap0 : Option Name) (d : Nat) (s : Sess) : Prop :=
-  s.captured = cap0 ∧ s.domain = d ∧ (∀ n, s.sni = some n → n = (negotiateName cap0 d).2) ∧
-    ∀ n, Ev.hello n ∈ s.trace → n = (negotiateName cap0 d).2
+def SN (cap0 : Option Name) (d : Nat) (pre : Option Name) (s : Sess) : Prop :=
+  s.captured = cap0 ∧ s.domain = d ∧ (∀ n, s.sni = some n → n = (negotiateName cap0 d).2 ∨ pre = some n) ∧
+    ∀ n, Ev.hello n ∈ s.trace → n = (negotiateName cap0 d).2 ∨ pre = some n
 
-theorem SN_ev (cap0 : Option Name) (d : Nat) (s : Sess) (e : Ev) (he : ∀ n, e ≠ .hello n) (h : SN cap0 d s) :
-    SN cap0 d { s with trace := e :: s.trace } := by
+theorem SN_ev (cap0 : Option Name) (d : Nat) (pre : Option Name) (s : Sess) (e : Ev) (he : ∀ n, e ≠ .hello n) (h : SN cap0 d pre s) :
+    SN cap0 d pre { s with trace := e :: s.trace } := by
   refine ⟨h.1, h.2.1, h.2.2.1, ?_⟩
   intro n hn
   simp only [List.mem_cons] at hn
@@ -23,7 +23,7 @@ theorem SN_ev (cap0 : Option Name) (d : Nat) (s : Sess) (e : Ev) (he : ∀ n, e 
   · exact absurd hn.symm (he n)
   · exact h.2.2.2 n hn
 
-theorem SN_io (cap0 : Option Name) (d : Nat) : ClosedIO (SN cap0 d) where
+theorem SN_io (cap0 : Option Name) (d : Nat) (pre : Option Name) : ClosedIO (SN cap0 d pre) where
   hello := by
     intro s h
     unfold sendHello
@@ -37,14 +37,14 @@ theorem SN_io (cap0 : Option Name) (d : Nat) : ClosedIO (SN cap0 d) where
       · exact h.2.2.2 m hm
     · exact h
   hs := fun s h => h
-  fromBuf := fun s o u rest h _ => SN_ev cap0 d s _ (fun n hn => by cases hn) h
-  fromTls := fun s u rest h _ _ _ => SN_ev cap0 d s _ (fun n hn => by cases hn) h
-  fromClear := fun s u us rest h _ _ _ => SN_ev cap0 d s _ (fun n hn => by cases hn) h
+  fromBuf := fun s o u rest h _ => SN_ev cap0 d pre s _ (fun n hn => by cases hn) h
+  fromTls := fun s u rest h _ _ _ => SN_ev cap0 d pre s _ (fun n hn => by cases hn) h
+  fromClear := fun s u us rest h _ _ _ => SN_ev cap0 d pre s _ (fun n hn => by cases hn) h
 
-theorem SN_neg (cap0 : Option Name) (d : Nat) : ClosedNeg (SN cap0 d) where
-  wHdr := fun s h => SN_ev cap0 d s _ (fun n hn => by cases hn) h
-  wStartTLS := fun s h => SN_ev cap0 d s _ (fun n hn => by cases hn) h
-  wOther := fun s id h => SN_ev cap0 d s _ (fun n hn => by cases hn) h
+theorem SN_neg (cap0 : Option Name) (d : Nat) (pre : Option Name) : ClosedNeg (SN cap0 d pre) where
+  wHdr := fun s h => SN_ev cap0 d pre s _ (fun n hn => by cases hn) h
+  wStartTLS := fun s h => SN_ev cap0 d pre s _ (fun n hn => by cases hn) h
+  wOther := fun s id h => SN_ev cap0 d pre s _ (fun n hn => by cases hn) h
   choose := by
     intro s h
     obtain ⟨hc, hd, hs, ht⟩ := h
@@ -53,6 +53,7 @@ theorem SN_neg (cap0 : Option Name) (d : Nat) : ClosedNeg (SN cap0 d) where
       rw [negotiateName_fst]; exact hc
     · intro n hn
       simp only [chooseConfig, Option.some.injEq] at hn
+      left
       rw [← hn, hc, hd]
   oracle := fun s o h => h
   neg := fun s m id h => h
@@ -61,19 +62,20 @@ theorem SN_neg (cap0 : Option Name) (d : Nat) : ClosedNeg (SN cap0 d) where
   restart := fun s h => h
   stateOr := fun s m h => h
 
-theorem SN_install (cap0 : Option Name) (d : Nat) : ClosedInstall (SN cap0 d) where
-  installTls := fun s h => SN_ev cap0 d (restartDec s) _ (fun n hn => by cases hn) h
+theorem SN_install (cap0 : Option Name) (d : Nat) (pre : Option Name) : ClosedInstall (SN cap0 d pre) where
+  installTls := fun s h => SN_ev cap0 d pre (restartDec s) _ (fun n hn => by cases hn) h
 
 theorem run_names (cfg : Cfg) (env : Env) (st0 : Mask) (i : Input) (fuel : Nat) :
-    (∀ n, Ev.hello n ∈ (run cfg env st0 i fuel).1 → n = (negotiateName env.captured env.domain).2) ∧
+    (∀ n, Ev.hello n ∈ (run cfg env st0 i fuel).1 →
+      n = (negotiateName env.captured env.domain).2 ∨ env.conn.name = some n) ∧
     capturedAfter cfg env st0 i fuel = env.captured := by
   unfold run capturedAfter
   split
   · exact ⟨fun n hn => (by cases hn), rfl⟩
-  · have h0 : SN env.captured env.domain (init env st0 i) :=
-      ⟨rfl, rfl, fun n hn => (by cases hn), fun n hn => (by cases hn)⟩
-    have h := loop_all (SN_io env.captured env.domain) (SN_neg env.captured env.domain)
-      (SN_install env.captured env.domain) cfg fuel false (init env st0 i) h0
+  · have h0 : SN env.captured env.domain env.conn.name (init env st0 i) :=
+      ⟨rfl, rfl, fun n hn => Or.inr hn, fun n hn => (by cases hn)⟩
+    have h := loop_all (SN_io env.captured env.domain env.conn.name) (SN_neg env.captured env.domain env.conn.name)
+      (SN_install env.captured env.domain env.conn.name) cfg fuel false (init env st0 i) h0
     exact ⟨fun n hn => h.2.2.2 n (List.mem_reverse.1 hn), h.1⟩
 
 end XmppModel.StartTLS
